@@ -196,6 +196,13 @@ def _run_rest(check, an: Analysis):
     # ... and later exactly when it comes to hold: the signal of an until block is
     # delivered without a second look at the condition (rule shared with C08)
     c08.check_comparison_trigger(check, an, 'I')
+    # the signal of an until-block must pass a wait on `a & b` / `a | b` inside the block:
+    # a connective absorbs exactly the wake-ups of its own subscriptions (rules shared with
+    # C08 and C03)
+    from ..report import SubCheck as _Sub
+    c08._check_connective_subscription(_Sub(check, 'I', 'Connective'), an)
+    from . import c03 as _c03
+    _c03.check_handlers(check, an, 'I')
     check.floor('I', 20)
     # ---- C ------------------------------------------------------------------
     c08._check_trigger_coverage(check, an, c08.condition_classes(an))
